@@ -212,7 +212,8 @@ class Lines(Part):
         rule = st.builds(lambda t, ch, al: {"k": "rule", "title": t, "characters": ch, "align": al}, st.one_of(st.just(""), GT.text_content(True)),
                          st.sampled_from(["─", "-", "=-", GC.WIDE[0], "━", "ab" + GC.WIDE[1], "*"]), st.sampled_from(["left", "center", "right"]))
         bar = st.builds(lambda size, b, e, w: {"k": "bar", "size": size, "begin": min(b, e), "end": max(b, e), "width": w}, st.integers(1, 100), st.integers(0, 100), st.integers(0, 100), st.one_of(st.none(), st.integers(1, 80)))
-        pbar = st.builds(lambda total, c, w, p: {"k": "pbar", "total": total, "completed": c, "width": w, "pulse": p}, st.one_of(st.integers(0, 100), st.just(0)), st.integers(0, 120), st.one_of(st.none(), st.integers(1, 80)), st.booleans())
+        pbar = st.builds(lambda total, c, w, p, at: {"k": "pbar", "total": total, "completed": c, "width": w, "pulse": p, "atime": at}, st.one_of(st.integers(0, 100), st.just(0)), st.integers(0, 120), st.one_of(st.none(), st.integers(1, 80)), st.booleans(),
+                         st.one_of(st.just(1.5), st.integers(0, 200).map(lambda k: k / 16), st.floats(0, 1000, allow_nan=False)))
         w = st.one_of(st.integers(1, 12), st.integers(1, 200))
         return st.builds(lambda n, w, cs, nc, env: {"node": n, "W": w, "color_system": cs, "no_color": nc, "env": env}, st.one_of(rule, rule, bar, pbar), w,
                          st.sampled_from([None, "standard", "256", "truecolor"]), st.sampled_from([False, False, True]), st.sampled_from(["utf8", "utf8", "ascii", "legacy"]))
